@@ -360,7 +360,10 @@ class ProblemFunction(MDOFunction, Serializable):
         else:
             jac_n = self._normalize_grad(jac_u)
 
-        return jac_n.real
+        # Return a copy: the Jacobian can be an array owned by the function,
+        # e.g. the coefficients of a linear function,
+        # that the caller must be able to modify in place.
+        return jac_n.real.copy()
 
     @staticmethod
     def check_function_output_includes_nan(
